@@ -189,6 +189,8 @@ type Exec struct {
 	nopaque    int
 	clockLast  *Int
 	ufDecl     map[string]bool
+	ntpdef     int
+	cachedModel []InputRec
 	matchTable map[*value]value
 	natives    map[string]value
 	faultSeq   int
@@ -412,6 +414,9 @@ func parseBV(s string) uint64 {
 		v, _ := strconv.ParseUint(f[0], 10, 64)
 		return v
 	}
+	if os.Getenv("VERIF_DEBUG") != "" {
+		fmt.Println("DEBUG parseBV", s, engineStack())
+	}
 	panic(inconclusive{"parseBV: " + s})
 }
 
@@ -443,6 +448,11 @@ func parseFP(s string) (float64, bool) {
 // model fills in concrete values for all inputs of the current path from
 // the solver's current model (a (check-sat) returning sat must precede).
 func (e *Exec) model() []InputRec {
+	if e.cachedModel != nil {
+		m := e.cachedModel
+		e.cachedModel = nil
+		return m
+	}
 	out := make([]InputRec, len(e.inputs))
 	copy(out, e.inputs)
 	for i := range out {
@@ -515,7 +525,17 @@ func (e *Exec) vAssert(c Bool, id string) {
 		if r == "sat" {
 			e.recordViolation(id, "", "")
 		} else if r == "unknown" {
-			e.incon("solver unknown at assert " + id + ": " + e.sol.lastErr)
+			nc := tnot(c.T).S
+			for _, k := range listed {
+				nc = "(and " + nc + " " + bnot(k.cond).term().S + ")"
+			}
+			e.sol.Send("(pop 2)")
+			if e.probeViolation(nc) {
+				e.recordViolation(id, "", "")
+			} else {
+				e.incon("solver unknown at assert " + id + ": " + e.sol.lastErr)
+			}
+			e.sol.Send("(push 2)")
 		}
 		e.sol.Send("(pop 1)")
 		if r == "unsat" {
@@ -538,7 +558,13 @@ func (e *Exec) vAssert(c Bool, id string) {
 		if r == "sat" {
 			e.recordViolation(id, "", "")
 		} else if r == "unknown" {
-			e.incon("solver unknown at assert " + id + ": " + e.sol.lastErr)
+			e.sol.Send("(pop 1)")
+			if e.probeViolation(tnot(c.T).S) {
+				e.recordViolation(id, "", "")
+			} else {
+				e.incon("solver unknown at assert " + id + ": " + e.sol.lastErr)
+			}
+			e.sol.Send("(push 1)")
 		}
 	}
 	e.sol.Send("(pop 1)")
@@ -609,6 +635,15 @@ func (e *Exec) violationHere(id, msg string) {
 		}
 		return
 	}
+	if os.Getenv("VERIF_DEBUG") != "" && e.sol.Check() == "sat" {
+		fmt.Println("DEBUG violationHere", id, msg, "unrefined model:")
+		for _, in := range e.model() {
+			fmt.Printf("   %s(%s)=%s\n", in.Tag, in.Kind, in.Val)
+		}
+		for _, app := range e.ufApps {
+			fmt.Println("   app", app.term, "=", e.sol.GetValue(app.term))
+		}
+	}
 	if e.checkRefined() == "sat" {
 		e.recordViolation(id, msg, "")
 	} else {
@@ -677,6 +712,7 @@ func (e *Exec) runPath(prefix []int64) {
 	e.ctxChildren = nil
 	e.inInit = 0
 	e.ufDecl = map[string]bool{}
+	e.ntpdef = 0
 	e.matchTable = map[*value]value{}
 	e.natives = map[string]value{}
 	e.faultSeq = 0
@@ -807,9 +843,10 @@ func RunJob(prog *ssa.Program, entry *ssa.Function, inits []*ssa.Function, cfg J
 }
 
 func mustCreate(p string) *os.File {
-	f, err := os.Create(p)
+	f, err := os.OpenFile(p, os.O_CREATE|os.O_WRONLY|os.O_APPEND, 0o644)
 	if err != nil {
 		panic(err)
 	}
+	fmt.Fprintln(f, "; ---- new job ----")
 	return f
 }
